@@ -172,6 +172,18 @@ class Reconcile:
         else:  # because can replace AST at root node which has out_parent=None
             self.out.replace(code, trivia=trivia, **self.options)
 
+    def dict_keys_ref(self, dictf: fst.FST) -> list[AST | None]:
+        """The `keys` list which the indices of the `FST` children of the `Dict` `dictf` refer to. For a `Dict` from the
+        tree being reconciled this is the list of the same node in the marked tree because the `AST` lists of the work
+        tree may have been changed (elements deleted or inserted), in which case the indices stored in the `FST` nodes
+        do not apply to them. For a `Dict` from another tree there is only its own list, the indices may be out of range
+        there."""
+
+        if dictf.root is self.work:
+            dictf = self.mark.child_from_path(self.work.child_path(dictf))
+
+        return dictf.a.keys
+
     def recurse_slice_dict(self, node: AST, outf: fst.FST | None) -> None:  # TODO: refactor!
         """Recurse into a combined slice of a Dict's keys and values using slice operations to copy over formatting
         where possible (if not already there). Can be recursing an in-tree FST parent or a pure AST parent."""
@@ -199,7 +211,7 @@ class Reconcile:
                     else child_parent.a.__class__ is not Dict        # value parent is not Dict)
                 )
                 or (
-                    child_parent.a.keys[val_pfield.idx] is not None  # or (key associated with value is not None
+                    not ((idx := val_pfield.idx) < len(ks := self.dict_keys_ref(child_parent)) and ks[idx] is None)  # or (key associated with value is not None
                     if (keya := keys[start]) is None                 # if our key is None, else
                     else (
                         not (keyf := getattr(keya, 'f', None))       # if key doesn't have FST
@@ -209,7 +221,7 @@ class Reconcile:
                 end = start + 1
 
             else:  # slice operation, even if its just one element because slice copies more formatting and comments
-                child_parent_keys = child_parent.a.keys
+                child_parent_keys = self.dict_keys_ref(child_parent)
                 child_idx = val_pfield.idx
                 child_off_idx = child_idx - start
 
@@ -218,7 +230,7 @@ class Reconcile:
                         or f.parent is not child_parent
                         or f.pfield != ('values', i := child_off_idx + end)
                         or (
-                            child_parent_keys[i] is not None  # child_parent_keys and keys COULD be the same, but not guaranteed
+                            not (i < len(child_parent_keys) and child_parent_keys[i] is None)  # child_parent_keys and keys COULD be the same, but not guaranteed
                             if (a := keys[end]) is None
                             else (
                                 not (f := getattr(a, 'f', None))
